@@ -57,25 +57,13 @@ Definition res_pos_eqb (a : res (Z * Z)) (b : res (list Z)) : bool :=
   end.
 
 Definition step_ok (w : wstate) (pending : list item) (o : op) (ob : obs) : bool :=
+  step_rel w o ob &&
   match o with
-  | OpSet t l => wstate_eqb (ob_w ob) (mkW t l (in_diff w) (another w))
-  | OpRender _ _ _ =>
-      (* _last_cursor_row is the row the render left the cursor on *)
-      match ob_rows ob with
-      | [r] => optZ_eqb (last (ob_w ob)) (Some r)
-      | _ => false
-      end
-  | OpDiff cb s =>
-      match ob_ret ob with
-      | Ok [dy] => diff_relation w dy (ob_w ob) (ob_rows ob)
-      | Ok _ => false
-      | Raise e => exn_eqb e ValueError
-      end
   | OpPos cb s =>
       let st := filter (fun i => negb (is_nest i)) (pending ++ s) in
       let '(r, cbs, unread) := spec_position cb st in
-      res_pos_eqb r (ob_ret ob) && list_eqb str_eqb cbs (ob_cb ob) && Nat.eqb unread (ob_unread ob) &&
-      wstate_eqb (ob_w ob) w
+      res_pos_eqb r (ob_ret ob) && list_eqb str_eqb cbs (ob_cb ob) && Nat.eqb unread (ob_unread ob)
+  | _ => true
   end.
 
 (* the pending stream after an operation is the suffix of the given length *)
